@@ -13,7 +13,8 @@ RULE = ("each script = one generated exchange sequence (request configuration: m
         "Oracle (implementation only, metamorphic): every schedule yields the same request head bytes, request payload, response "
         "head, response body, terminal state, must-close verdict and reason, and the server bytes consumed equal the length of the "
         "response messages of the exchange (next exchange starts at the next response). non-trivial = all schedules ran to the "
-        "terminal state; distinct = distinct op lists")
+        "terminal state; distinct = distinct op lists. A tenth of the scripts take the request of a second hop (made by as_new_flow) as the fixed "
+        "request and compare its head bytes across output segmentations")
 TRUSTED_BASE = COMMON_TRUSTED_BASE
 ASSUMPTIONS = ["the caller re-presents unconsumed bytes (window discipline, part of the script semantics)",
                "causality: the final response arrives only after the request is complete; an interim 100 may arrive once the head is out",
@@ -358,9 +359,72 @@ def build(rng, tier):
     return {"ops": ops, "meta": meta}
 
 
+def build_redirected(rng, tier):
+    """The request of a SECOND hop (made by as_new_flow from a request that carries headers which are not inherited -- cookie,
+    authorization -- ahead of others) is a fixed request too: its head bytes must not depend on how the output is segmented."""
+    hs = []
+    pool = [(b"cookie", b"c=1"), (b"authorization", b"tok"), (b"accept", b"*/*"), (b"x-trace", b"t1"), (b"accept-language", b"en"), (b"cookie", b"d=2"), (b"user-agent", b"ua/1")]
+    for _ in range(rng.randrange(2, 7)):
+        hs.append(rng.choice(pool))
+    rng.shuffle(hs)
+    hs = group_headers(hs)
+    method = rng.choice(["GET", "GET", "HEAD", "OPTIONS", "POST"])
+    status = rng.choice([301, 302, 303, 307]) if method != "POST" else rng.choice([301, 302, 303])
+    resp = render_response_head("1.1", status, b"Moved", [(b"Location", rng.choice([b"/next", b"http://b.test/n?x=1"])), (b"Content-Length", b"0")])
+    prefix = ["new " + request_args(method, "1.1", "http", "a.test", "/start", hs), "proceed", "write_head #100000", "proceed"]
+    if method == "POST":
+        prefix += ["write_body x #100", "proceed"]
+    prefix += ["raw_try_response %s" % hx(resp), "proceed", "as_new_flow %s" % rng.choice(["never", "same_host"]), "follow"]
+    added = ["header %s %s" % (hx(b"x-new"), hx(b"n"))] if rng.random() < 0.4 else []
+    ops = []
+    k = 12 if tier == "thorough" else 6
+    for r in range(k + 1):
+        ops += ["stream x"] + prefix + added + ["proceed"]
+        if r == 0:
+            ops += ["write_head #100000"]
+        else:
+            style = rng.choice(["const", "const", "rand"])
+            c = rng.randrange(18, 60)
+            for _ in range(40):
+                ops.append("write_head %s" % num(c if style == "const" else rng.choice([0, 1, 17, 18, 19, 20, 21, 22, 23, 24, 25, 30, 40, 64])))
+            ops += ["write_head #100000"]
+        ops += ["q_can_proceed", "write_head #100000"]
+    _stats["redirected_heads"] = _stats.get("redirected_heads", 0) + 1
+    return {"ops": ops, "meta": {"kind": "redirected-head"}}
+
+
+def oracle_redirected(script, obs):
+    ops = script["ops"]
+    if "panic" in obs:
+        return ["panic (op %d)" % obs.index("panic")]
+    starts = [i for i, o in enumerate(ops) if o.startswith("stream ")] + [len(ops)]
+    heads = []
+    for r in range(len(starts) - 1):
+        a, b = starts[r], starts[r + 1]
+        f = next((i for i in range(a, b) if ops[i] == "follow"), None)
+        if f is None or obs[f] != "ok":
+            return []       # the redirect was not followed (not this property's business)
+        out = b""
+        done = None
+        for i in range(f, b):
+            if ops[i].startswith("write_head") and obs[i].startswith("ok "):
+                out += parse_head_write(obs[i])[1]
+            if ops[i] == "q_can_proceed":
+                done = obs[i]
+        heads.append((out, done))
+    ref = heads[0]
+    if ref[1] != "true":
+        return ["redirected request: the head is not complete after a write into a large buffer"]
+    for r, h in enumerate(heads[1:], 1):
+        if h != ref:
+            return ["schedule %d: the head of the redirected request differs from the one written in one piece (%d vs %d bytes, complete=%s): %r ..." % (
+                r, len(h[0]), len(ref[0]), h[1], h[0][:80])]
+    return []
+
+
 def generate(rng, tier, mult):
     count = (400 if tier == "quick" else 2500) * mult
-    return [build(rng, tier) for _ in range(count)]
+    return [build(rng, tier) for _ in range(count)] + [build_redirected(rng, tier) for _ in range(count // 10)]
 
 
 def stats():
@@ -437,6 +501,8 @@ def outcomes_of_run(ops, obs, exmeta):
 
 
 def oracle(script, obs):
+    if script["meta"].get("kind") == "redirected-head":
+        return oracle_redirected(script, obs)
     ops = script["ops"]
     meta = script["meta"]
     starts = [i for i, o in enumerate(ops) if o.startswith("stream ")] + [len(ops)]   # (robust under minimisation)
@@ -503,4 +569,6 @@ def oracle(script, obs):
 
 
 def nontrivial(script, obs):
+    if script["meta"].get("kind") == "redirected-head":
+        return any(op == "follow" and o == "ok" for op, o in zip(script["ops"], obs))
     return sum(1 for o in obs if o == "state Cleanup") >= sum(1 for o in script["ops"] if o.startswith("stream "))
